@@ -18,6 +18,8 @@ ORACLE_WHAT = {
 }
 
 
+MANIFEST = {'technique': 'Coq proof over the reals (field/nra/ring) for every valid cell + exact Q(sqrt D) executable mirror compared with gemmi within 1e-9 + identity oracles on gemmi', 'text': 'Theorems over R for all cells with positive edges and sines, s^2+c^2=1 and positive volume discriminant: frac.orth = I, volume = det(orth) = abc sqrt(D) > 0, reciprocal metric G* = G^-1 for the closed forms the code uses, the reciprocal cell is valid and the reciprocal of the reciprocal is the original, 1/d^2 = h^T G* h = |frac^T h|^2, is_compatible_with_groupops <=> every rotation preserves the metric tensor (exactly for eps = 0, within eps otherwise), change of basis acts as M^T G M and forward-then-backward restores G, orthogonalize_box contains all eight corner images (snapshot angle test refuted with a rational witness, over R and over Q), distance_sq invariant under lattice translations away from rounding ties, find_nearest_pbc_image consistent. The same definitions instantiated at Q(sqrt D) are extracted and compared with gemmi doubles (1e-9 relative; booleans exactly with a 1e-6 guard band) over every 90/120/oblique angle pattern; oracles on gemmi for each identity with 27 space groups.', 'note': 'Trusted: Coq kernel; Reals axioms (sig_forall_dec, sig_not_dec, functional_extensionality_dep); extraction; harness. libm and double rounding are assumed and tested with tolerance; set_from_vectors (sqrt/acos) assumed to reproduce the Gram matrix.'}
+
 def hkl_cube(rng, n):
     out = [(0, 0, 0), (1, 0, 0), (0, 1, 0), (0, 0, 1), (1, 1, 1), (-1, 2, -3)]
     while len(out) < n:
